@@ -158,9 +158,10 @@ def normalize_hostname(hostname, normalize_amp=True):
 
     pattern = IRRELEVANT_SUBDOMAIN_AMP_RE if normalize_amp else IRRELEVANT_SUBDOMAIN_RE
 
-    hostname = pattern.sub("", hostname)
+    # NOTE: a hostname made of irrelevant labels only is kept, nothing would remain
+    hostname = pattern.sub("", hostname) or hostname
 
-    if normalize_amp and hostname.startswith("amp-"):
+    if normalize_amp and hostname.startswith("amp-") and len(hostname) > 4:
         hostname = hostname[4:]
 
     hostname = decode_punycode_hostname(hostname)
@@ -391,11 +392,17 @@ def normalize_url(
         path = ""
 
     # Dropping irrelevant subdomains
+    # NOTE: a hostname made of irrelevant labels only is kept, nothing would remain
     if hostname and strip_irrelevant_subdomains:
-        hostname = re.sub(
-            IRRELEVANT_SUBDOMAIN_AMP_RE if normalize_amp else IRRELEVANT_SUBDOMAIN_RE,
-            "",
-            hostname,
+        hostname = (
+            re.sub(
+                IRRELEVANT_SUBDOMAIN_AMP_RE
+                if normalize_amp
+                else IRRELEVANT_SUBDOMAIN_RE,
+                "",
+                hostname,
+            )
+            or hostname
         )
 
     # Dropping scheme
@@ -408,7 +415,7 @@ def normalize_url(
         password = None
 
     # Normalizing AMP subdomains
-    if normalize_amp and hostname and hostname.startswith("amp-"):
+    if normalize_amp and hostname and hostname.startswith("amp-") and len(hostname) > 4:
         hostname = hostname[4:]
 
         # NOTE: the prefix could hide a punycode label
